@@ -40,7 +40,7 @@ CHECKS = {
              'norm and, as a tensor, exactly the prescribed eigenvalues on those axes (double-couple, CLVD, any pattern), also as one '
              'composed statement about a whole sample; the axes commute with every proper rotation applied to both vector draws (nsatz, '
              'no hypothesis on the draws) and the joint density of those draws is unchanged by it, so the law of the orientation is '
-             'rotation invariant. All for every value of the draws, i.e. every state of the generator. The unit tests check shape and norm of one draw.',
+             'rotation invariant; a joint draw for several events returns one sample set per event, each with one sample per column of its own block of draws and depending on that block alone. All for every value of the draws, i.e. every state of the generator. The unit tests check shape and norm of one draw.',
         note=AX_R + 'the model is hand-written and tied by correspondence only: every returned sample must equal bit for bit the model on the '
              'draws of its own column (this also shows that samples use independent draws). The step from a rotation-invariant density '
              'to the law of the normalised vector, and from a rotation-invariant law of the frame to the uniform (Haar) one, is the standard argument and is '
